@@ -60,7 +60,8 @@ CHECKS = [
         "a returned entry always carries exactly the probed string (the mandatory final comparison), lies among the local entries, "
         "the linear searches find the first matching entry and return NULL only when no entry matches; g_typelib_get_dir_entry returns "
         "the location directory + (index-1)*entry_blob_size for every 16-bit index (conversions to 8/16-bit unsigned types are "
-        "reduced modulo 2**bits, so an offset squeezed through a narrow temporary is refuted).",
+        "reduced modulo 2**bits, so an offset squeezed through a narrow temporary is refuted). Repository level: the per-typelib "
+        "callback of g_irepository_find_by_error_domain never loses or overwrites a hit and keeps entry and typelib paired.",
         "Trusted: givc C front end, stub headers, strcmp / get_section_by_id by assumed contract, the directory layout as the "
         "definition of ENTRY, header counts within their 16-bit range, byte layout "
         "of the mapped file abstracted as locations, wider integer arithmetic mathematical, CMPH (hash returns some index below n_entries). Index construction (gthash.c), "
@@ -228,7 +229,9 @@ CHECKS = [
         "spelling kept as c:type, _Bool/bool are gboolean, a returned char** and GStrv are arrays of utf8, table types become "
         "their fundamental, unknown ones stay unresolved) are proved for whatever the real dictionary ast.type_names contains; "
         "that the dictionary holds the documented entries (int=gint, char*=utf8, stdint aliases ...) is a finite evaluation "
-        "of 40 constants (contracts/extra/c02_type_table.py, complete for that list, reported under bounded).",
+        "of 40 constants (contracts/extra/c02_type_table.py, complete for that list, reported under bounded). _create_type_from_base: "
+        "the const-ness handed on is that of the POINTEE's qualifier bits (never read from the spelled type), the spellings come "
+        "from the lexer type (_create_source_type / _create_complete_source_type by assumed contract).",
         "Trusted: givc VC generator, class schema, Transformer lookups (lookup_typenode, resolve_aliases) as uninterpreted "
         "functions, parameters pairwise distinct objects (precondition, instantiated at every pair of read positions). The C type "
         "table as the real dictionary read at verification time; _create_bare_container_type (GList / GHashTable ... by name) by assumed "
